@@ -364,3 +364,31 @@ PROPS["C10"] = dict(
                                       "the from-mask of migrate_pages is a wildcard, only the destination mask is compared with the legal set",
                                       "the sandbox has one NUMA node: live membind round trips cover that node only"],
 )
+
+
+def _c20_prepare(st, tier):
+    from engine import build as _b
+    _b.build_tools("asan")
+
+
+PROPS["C20"] = dict(
+    level_text="Exhaustive within bounds: the tools of the working tree (built with ASan/UBSan against the instrumented library) are run on every "
+               "generated command line: topologies x option sets x every location expression of a generated grammar (prefix operators, all/root, "
+               "type:range with every range form, nested locations, set literals; sequences of up to 2 (3) locations), compared line by line with a "
+               "reference evaluator that works on the syntax tree through the library; --largest and -H outputs are fed back; hwloc-distrib for every "
+               "n against hwloc_distrib(); lstopo XML / synthetic output against the library exports and reloaded; hwloc-diff + hwloc-patch on "
+               "generated pairs; a list of malformed command lines and every single-character mutation of the generated locations (no crash, no hang).",
+    technique="bounded-exhaustive enumeration of command lines over a generated grammar, executed on the real tools, with a reference evaluator over the syntax tree (small-scope differential checking)",
+    design_ref="DESIGN.md 5 (C20)",
+    stages=[simple("calc", "c20_tools", variant="fast", parts=64, deadline={"quick": 300, "thorough": 6000}, prepare=_c20_prepare,
+                   args={"quick": ["--stage", "calc"], "thorough": ["--stage", "calc"]}),
+            simple("other", "c20_tools", variant="fast", parts=32, deadline={"quick": 300, "thorough": 3000}, prepare=_c20_prepare,
+                   args={"quick": ["--stage", "other"], "thorough": ["--stage", "other"]})],
+    explanation="Expressions are fed in batches of 400 on the standard input of one hwloc-calc process per (topology, option set); every single "
+                "location is run again on the command line. A tool that does not finish within 20 s is killed and reported as a hang.",
+    bounds={"quick": "10 topologies (<= 8 PUs) for hwloc-calc, 12 for the other tools; second operands from a reduced list of 24 locations; malformed lists on 3 topologies",
+            "thorough": "all 26 topologies; richer ranges, 3-location sequences, second operands from 60 locations"},
+    assumptions=COMMON_ASSUMPTIONS + ["objects without an OS index cannot be named with physical indexes: --largest -p outputs naming such objects are counted, not compared",
+                                      "--largest is an error for sets that leave the topology: such expressions are exercised with the other option sets only",
+                                      "graphical and interactive lstopo outputs are not covered"],
+)
